@@ -226,7 +226,9 @@ func init() {
 				case 1:
 					use = fmt.Sprintf("use%d [%s][] end", u, l)
 				case 2:
-					use = fmt.Sprintf("use%d [%s] end", u, l)
+					// what follows the shortcut form is sometimes the start of something that is no
+					// link label ("[", "[ ]", "[x"): the reference is a shortcut reference all the same (F46)
+					use = fmt.Sprintf("use%d [%s]%s end", u, l, []string{"", "", "", "[", "[ ]", "[x"}[r.Intn(6)])
 				default:
 					use = fmt.Sprintf("use%d ![%s] end", u, l)
 				}
@@ -322,6 +324,15 @@ func (c12) Check(ctx *core.Ctx, c *core.Case) {
 			n := int(p[3] - '0')
 			body := strings.TrimSuffix(p[5:], " end")
 			pre, suf := [][2]string{{"[txt0][", "]"}, {"[", "][]"}, {"[", "]"}, {"![", "]"}}[n][0], [][2]string{{"[txt0][", "]"}, {"[", "][]"}, {"[", "]"}, {"![", "]"}}[n][1]
+			if n == 2 {
+				for _, junk := range []string{"[ ]", "[x", "["} {
+					if strings.HasSuffix(body, "]"+junk) {
+						body = strings.TrimSuffix(body, junk)
+						ctx.Inc("shortcut_uses_followed_by_a_non_label")
+						break
+					}
+				}
+			}
 			if !strings.HasPrefix(body, pre) || !strings.HasSuffix(body, suf) || len(body) < len(pre)+len(suf) {
 				ctx.Skip("not_generator_shape")
 				return
